@@ -58,13 +58,6 @@ theorem mismatch_reported (reqHdr rspHdr : Hdr) (reqFc : FunctionCode) (res : Re
   · intro h; simp [h]
   · intro h1 h2; simp [h1, h2]
 
-/-- the header a call stamps: the client's current transaction id (TCP; 0 over RTU) and
-    the selected slave -/
-def stampedHdr (c : Client) : Hdr :=
-  match c.kind with
-  | .tcp => { tid := c.nextTid, unit := c.unit }
-  | .rtu => { tid := 0, unit := c.unit }
-
 /-- **call_result_classified**: from any client state and for any transport behaviour, whatever a
     call returns that is not a transport error (or a panic) is the verdict of `classify` on a
     decoded reply, judged against the header this very call stamped and the request's own
